@@ -103,9 +103,25 @@ def make_template(path):
     tr.cleanup()
 
 
-def open_case_db(path, tr, warm):
+def open_case_db(path, tr, warm, warm_program=None):
+    """warm_program: the case's own program is first run once in a session that is rolled back, so that every SQL text cache
+    of this Database object (database._constructed_sql_cache, the per-entity find/insert/update/delete caches, the
+    translator cache) is WARM when the session under test runs: code that does its transaction bookkeeping only on a cache
+    miss shows here.  commit steps are replaced by flush; the warm-up stops at the first exception."""
     E = define(tr, path)
     E.db.generate_mapping(create_tables=False, check_tables=False)
+    if warm_program is not None:
+        try:
+            with E.db_session:
+                try:
+                    st = {}
+                    for op in warm_program:
+                        if op[0] in ('commit', 'db_commit'): E.flush()
+                        elif op[0] in ('raise', 'rollback'): break
+                        else: run_op(E, op, st)
+                except Exception: pass
+                E.rollback()
+        except Exception: pass
     if warm:
         with E.db_session: E.select(t for t in E.T)[:]          # leaves an idle connection in the thread's pool
     else:
@@ -165,9 +181,12 @@ def run_op(E, op, st):
     elif k == 'select': E.select(t for t in E.T)[:]
     elif k == 'raw_select': E.db.select('* from raw_t')
     elif k == 'for_update': E.T.get_for_update(id=op[1])
+    elif k == 'query_delete':
+        x = op[1]
+        E.delete(t for t in E.T if t.x == x and not t.us)        # loads the objects and deletes them one by one
     elif k == 'bulk_delete':
         x = op[1]
-        E.delete(t for t in E.T if t.x == x and not t.us)
+        E.select(t for t in E.T if t.x == x).delete(bulk=True)   # Query.delete(bulk=True): one DELETE ... WHERE statement
     elif k == 'flush': E.flush()
     elif k == 'commit': E.commit()
     elif k == 'rollback': E.rollback(); st['rollback'] = True
@@ -203,6 +222,7 @@ FIXED_PROGRAMS = [
     ('dup_caught', 'optimistic', [['raw_insert', 13, 1], ['try', ['raw_insert', 1, 99]], ['create_T', 47]]),
     ('dup_uncaught', 'optimistic', [['create_T', 48], ['flush'], ['raw_insert', 1, 99]]),
     ('unique_clash', 'optimistic', [['create_T', 49], ['create_U', 1]]),
+    ('query_delete', 'optimistic', [['create_T', 3], ['query_delete', 3], ['raw_update', 2, 21]]),
     ('bulk_delete', 'optimistic', [['create_T', 3], ['bulk_delete', 3], ['raw_update', 2, 21]]),
     ('for_update', 'optimistic', [['for_update', 1], ['update_T', 1, 50], ['raw_insert', 14, 1]]),
     ('oflush_delete', 'optimistic', [['oflush_delete', 3], ['create_T', 60], ['raw_insert', 30, 1]]),
@@ -222,6 +242,15 @@ FIXED_PROGRAMS = [
     ('oflush_update_rollback', 'optimistic', [['oflush_update', 1, 64], ['rollback'], ['oflush_create', 65]]),
     ('oflush_delete_only', 'optimistic', [['oflush_delete', 3]]),
     ('oflush_all', 'optimistic', [['oflush_delete', 3], ['oflush_update', 1, 66], ['oflush_create', 67], ['commit'], ['oflush_delete', 1]]),
+    ('bulk_first', 'optimistic', [['bulk_delete', 3], ['create_T', 70], ['raw_insert', 31, 1]]),
+    ('bulk_first_immediate', 'immediate', [['bulk_delete', 3], ['create_T', 70], ['raw_insert', 31, 1]]),
+    ('bulk_first_serializable', 'serializable', [['bulk_delete', 3], ['create_T', 70], ['raw_insert', 31, 1]]),
+    ('bulk_first_pessimistic', 'pessimistic', [['bulk_delete', 3], ['create_T', 70], ['raw_insert', 31, 1]]),
+    ('bulk_first_raise', 'optimistic', [['bulk_delete', 3], ['raise']]),
+    ('bulk_first_rollback', 'optimistic', [['bulk_delete', 3], ['rollback'], ['create_T', 71]]),
+    ('bulk_after_select', 'optimistic', [['select'], ['bulk_delete', 3], ['update_T', 1, 72]]),
+    ('bulk_only', 'optimistic', [['bulk_delete', 3]]),
+    ('bulk_then_dup', 'optimistic', [['bulk_delete', 3], ['raw_insert', 1, 99]]),
     ('read_only', 'optimistic', [['select'], ['raw_select']]),
     ('empty', 'immediate', []),
 ]
@@ -275,10 +304,10 @@ def random_program(rng):
             prog.append(['try', ['raw_insert', 1, 99]])
         elif r < 0.96:
             prog.append(['create_U', next_n]); next_n += 1
-        elif r < 0.98 and ts:
+        elif r < 0.965 and ts:
             prog.append(['for_update', rng.choice(ts)])
         else:
-            prog.append(['bulk_delete', rng.randint(0, 9)])
+            prog.append([rng.choice(['bulk_delete', 'bulk_delete', 'query_delete']), rng.randint(0, 9)])
     if rng.random() < 0.08: prog.append(['raise'])
     return prog
 
@@ -301,7 +330,7 @@ def run_case(template, workdir, case):
         if os.path.exists(path + ext): os.remove(path + ext)
     shutil.copyfile(template, path)
     tr = Tracer()
-    E = open_case_db(path, tr, case['warm'])
+    E = open_case_db(path, tr, case['warm'], case['program'] if case.get('sqlwarm') else None)
     obs_con = sqlite3.connect(path, timeout=5.0, isolation_level=None, check_same_thread=False)
     base = tr.next_index
     mark = tr.mark()
@@ -437,7 +466,7 @@ def _child_session(template, path, case, kill):
         if os.path.exists(path + ext): os.remove(path + ext)
     shutil.copyfile(template, path)
     tr = Tracer()
-    E = open_case_db(path, tr, case['warm'])
+    E = open_case_db(path, tr, case['warm'], case['program'] if case.get('sqlwarm') else None)
     base = tr.next_index
     def before(ev):
         if kill[0] == 'before' and ev['i'] == base + kill[1]: os.kill(os.getpid(), signal.SIGKILL)
@@ -550,11 +579,11 @@ def check_model(ctx, case, obs, m):
 
 
 def case_json(case):
-    return {'program': case['program'], 'opts': case['opts'], 'warm': case['warm'], 'faults': case['faults'], 'kill': case.get('kill')}
+    return {'program': case['program'], 'opts': case['opts'], 'warm': case['warm'], 'sqlwarm': bool(case.get('sqlwarm')), 'faults': case['faults'], 'kill': case.get('kill')}
 
 
 def case_key(kind, case):
-    return '%s:%s' % (kind, json.dumps([case['program'], case['opts'], case['warm'], [[f[0], f[2]] for f in case['faults']], case.get('kill')],
+    return '%s:%s' % (kind, json.dumps([case['program'], case['opts'], case['warm'], bool(case.get('sqlwarm')), [[f[0], f[2]] for f in case['faults']], case.get('kill')],
                                        separators=(',', ':')))
 
 
@@ -765,8 +794,8 @@ run_cases.timing = []
 
 class Gen(object):
     def __init__(self): self.cases = []
-    def add(self, name, program, opts, warm, faults=(), kill=None, parent=None):
-        c = {'id': len(self.cases), 'name': name, 'program': program, 'opts': opts, 'warm': warm, 'faults': [list(f) for f in faults],
+    def add(self, name, program, opts, warm, faults=(), kill=None, parent=None, sqlwarm=False):
+        c = {'id': len(self.cases), 'name': name, 'program': program, 'opts': opts, 'warm': warm, 'sqlwarm': sqlwarm, 'faults': [list(f) for f in faults],
              'kill': kill, 'parent': parent}
         self.cases.append(c); return c
 
@@ -787,7 +816,7 @@ def evaluate(ctx, case, obs, model):
 
 
 def stats(ctx, case, obs):
-    ctx.count('opts:' + case['opts']); ctx.count('pool:' + ('warm' if case['warm'] else 'fresh'))
+    ctx.count('opts:' + case['opts']); ctx.count('pool:' + ('warm' if case['warm'] else 'fresh')); ctx.count('sql-caches:' + ('warm' if case.get('sqlwarm') else 'cold'))
     ctx.count('session-outcome:' + (obs['exc'] or 'ok'))
     ctx.count('commits-performed:%d' % len([e for e in obs['events'] if e['call'] == 'commit' and e['performed']]))
     for e in obs['events']:
@@ -805,8 +834,8 @@ def run(ctx):
         ponyutil.rmtree(workdir)
 
 
-QUICK_FULL_FAULTS = ('raw', 'm2m', 'commit_mid', 'hooks', 'oflush_delete', 'oflush_update', 'oflush_create')      # every call index, quick tier too
-QUICK_FULL_KILLS = ('commit_mid', 'oflush_delete')
+QUICK_FULL_FAULTS = ('raw', 'm2m', 'commit_mid', 'hooks', 'oflush_delete', 'oflush_update', 'oflush_create', 'bulk_first')      # every call index, quick tier too
+QUICK_FULL_KILLS = ('commit_mid', 'oflush_delete', 'bulk_first')
 
 
 def _run(ctx, workdir):
@@ -821,8 +850,11 @@ def _run(ctx, workdir):
     for name, opts, prog in FIXED_PROGRAMS:
         g.add(name, prog, opts, warm=False)
         if ctx.thorough or name in ('create', 'raw', 'immediate', 'commit_mid'): g.add(name, prog, opts, warm=True)
+        # the same program with every SQL text cache of the Database object warm (program run once before, rolled back)
+        if ctx.thorough or name.startswith(('bulk', 'oflush_delete', 'raw', 'm2m', 'query_delete', 'update_delete', 'for_update')):
+            g.add(name, prog, opts, warm=(name == 'bulk_after_select'), sqlwarm=True)
     for i in range(ctx.scale(14, 150)):
-        g.add('random%d' % i, random_program(rng), rng.choice(list(SESSION_OPTS)), warm=rng.random() < 0.3)
+        g.add('random%d' % i, random_program(rng), rng.choice(list(SESSION_OPTS)), warm=rng.random() < 0.3, sqlwarm=rng.random() < 0.4)
     baselines = list(g.cases)
     tb = time.time()
     res = run_cases(baselines, template, workdir)
@@ -835,36 +867,37 @@ def _run(ctx, workdir):
         if 'crash' in obs: raise RuntimeError('harness crashed on %r:\n%s' % (case_json(b), obs['crash']))
         n = len(obs['events'])
         ks = list(range(n))
-        full = ctx.thorough or (b['name'] in QUICK_FULL_FAULTS and not b['warm'])
+        qfull = b['name'] in QUICK_FULL_FAULTS and not b['warm'] and (not b['sqlwarm'] or b['name'] in ('bulk_first', 'oflush_delete'))
+        full = ctx.thorough or qfull
         if not full: ks = sorted(rng.sample(ks, min(len(ks), 3)))
         for k in ks:
             cls = EXC_CLASSES[(b['id'] + k) % len(EXC_CLASSES)].__name__
             call = obs['events'][k]['call']
-            g.add(b['name'], b['program'], b['opts'], b['warm'], faults=[[k, cls, None]], parent=b['id'])
+            g.add(b['name'], b['program'], b['opts'], b['warm'], sqlwarm=b['sqlwarm'], faults=[[k, cls, None]], parent=b['id'])
             if call in ('commit', 'rollback'):
-                g.add(b['name'], b['program'], b['opts'], b['warm'], faults=[[k, cls, 'after']], parent=b['id'])
+                g.add(b['name'], b['program'], b['opts'], b['warm'], sqlwarm=b['sqlwarm'], faults=[[k, cls, 'after']], parent=b['id'])
             if ctx.thorough or rng.random() < 0.25:
                 # a second fault inside the error handling of the first
                 d = rng.randint(1, 4)
-                g.add(b['name'], b['program'], b['opts'], b['warm'], faults=[[k, cls, None], [k + d, 'OperationalError', None]], parent=b['id'])
+                g.add(b['name'], b['program'], b['opts'], b['warm'], sqlwarm=b['sqlwarm'], faults=[[k, cls, None], [k + d, 'OperationalError', None]], parent=b['id'])
             if ctx.thorough and k % 3 == 0:
-                g.add(b['name'], b['program'], b['opts'], b['warm'], faults=[[k, ['MemoryError', 'KeyboardInterrupt'][k % 2], None]], parent=b['id'])
+                g.add(b['name'], b['program'], b['opts'], b['warm'], sqlwarm=b['sqlwarm'], faults=[[k, ['MemoryError', 'KeyboardInterrupt'][k % 2], None]], parent=b['id'])
         # every exception class at the first write and at the first commit
-        if (b['name'] in QUICK_FULL_FAULTS and not b['warm']) or (ctx.thorough and not b['name'].startswith('random')):
+        if qfull or (ctx.thorough and not b['name'].startswith('random')):
             firstw = [i for i, e in enumerate(obs['events']) if e['kind'] in ('insert', 'update', 'delete')][:1]
             commits = [i for i, e in enumerate(obs['events']) if e['call'] == 'commit'][:1]
             for k in firstw + commits:
-                for c in EXC_CLASSES: g.add(b['name'], b['program'], b['opts'], b['warm'], faults=[[k, c.__name__, None]], parent=b['id'])
+                for c in EXC_CLASSES: g.add(b['name'], b['program'], b['opts'], b['warm'], sqlwarm=b['sqlwarm'], faults=[[k, c.__name__, None]], parent=b['id'])
         # SIGKILL
         kks = list(range(n + 1))
         if ctx.thorough:
             # every call index of every fixed program; 5 random indices of each random program (a kill costs ~0.5-2 s)
             if b['name'].startswith('random'): kks = sorted(rng.sample(kks, min(len(kks), 5)))
-        elif not (b['name'] in QUICK_FULL_KILLS and not b['warm']):
+        elif not (b['name'] in QUICK_FULL_KILLS and not b['warm'] and b['sqlwarm'] == (b['name'] == 'bulk_first')):
             kks = sorted(rng.sample(kks, 1)) if (b['id'] % 3 == ctx.seed % 3) else []
         for k in kks:
-            if k < n: g.add(b['name'], b['program'], b['opts'], b['warm'], kill=['before', k], parent=b['id'])
-            else: g.add(b['name'], b['program'], b['opts'], b['warm'], kill=['after', n - 1], parent=b['id'])
+            if k < n: g.add(b['name'], b['program'], b['opts'], b['warm'], sqlwarm=b['sqlwarm'], kill=['before', k], parent=b['id'])
+            else: g.add(b['name'], b['program'], b['opts'], b['warm'], sqlwarm=b['sqlwarm'], kill=['after', n - 1], parent=b['id'])
     for i in range(ctx.scale(4, 40)):
         c = g.add('big', [], 'optimistic', False); c['timed'] = round(rng.uniform(0.0, 0.25), 3)
     derived = g.cases[len(baselines):]
@@ -890,7 +923,7 @@ def _run(ctx, workdir):
     shrunk = 0
     for c in inproc:
         obs = res[c['id']]
-        ctx.case([c['program'], c['opts'], c['warm'], c['faults']], nontrivial=True, kind='fault' if c['faults'] else 'baseline')
+        ctx.case([c['program'], c['opts'], c['warm'], c['sqlwarm'], c['faults']], nontrivial=True, kind='fault' if c['faults'] else 'baseline')
         stats(ctx, c, obs)
         probs = [p for p in oracle(c, obs) if p[0] != 'harness']
         if probs and shrunk < 3:
@@ -919,7 +952,7 @@ def _run(ctx, workdir):
         if c['kill'] is None: continue
         if 'crash' in r: raise RuntimeError('harness crashed on %r:\n%s' % (case_json(c), r['crash']))
         base = res[c['parent']]
-        ctx.case([c['program'], c['opts'], c['warm'], c['kill']], nontrivial=True, kind='kill')
+        ctx.case([c['program'], c['opts'], c['warm'], c['sqlwarm'], c['kill']], nontrivial=True, kind='kill')
         evaluate_kill(ctx, c, r, base, models.get(c['parent']))
 
 
@@ -993,7 +1026,7 @@ def replay(ctx, data):
     try:
         template = os.path.join(workdir, 'template.sqlite')
         make_template(template)
-        case = {'id': 0, 'name': 'replay', 'program': inp['program'], 'opts': inp['opts'], 'warm': inp['warm'], 'faults': [], 'kill': None, 'parent': None}
+        case = {'id': 0, 'name': 'replay', 'program': inp['program'], 'opts': inp['opts'], 'warm': inp['warm'], 'sqlwarm': bool(inp.get('sqlwarm')), 'faults': [], 'kill': None, 'parent': None}
         base = run_case_thread(template, workdir, case)
         if 'crash' in base: raise RuntimeError(base['crash'])
         base['model_events'], base['model_idx'] = model_events(base)
